@@ -117,6 +117,7 @@ impl BatchRegime {
 
 /// Batch sender that queues packets and flushes them efficiently
 #[derive(Debug)]
+#[cfg_attr(feature = "verif-hooks", derive(Clone))]
 pub struct BatchSender {
     /// Queue of packets waiting to be sent
     queue: Vec<SmallVec<u8, 1500>>,
